@@ -8,7 +8,7 @@ use blsful::inner_types::Group;
 use blsful::*;
 use serde_json::json;
 
-pub const RULE: &str = "message lengths {0..=40, 100..=140, 16383, 16384, 16385, 65535, 65536} (quick: every 3rd of the short ranges + all boundary lengths) x 3 schemes x 2 groups x fresh keys x contents. Honest: is_valid()==1, decrypt(sk)==msg, SignCryptDecryptionKey(u*sk).decrypt==msg, sk.sign_decryption_key path, decode(encode(ct)) decrypts, and the REFERENCE opens the library's ciphertext to msg. Tamper: EXHAUSTIVE single-bit flips of the whole byte encoding (u, length prefix, v, w, scheme byte) for one ciphertext of a message <= 8 bytes per (scheme,group) cell, 64 sampled flips for every other ciphertext; component-level changes: u+G, 2u, u of another ciphertext, w+G, -w, w of another ciphertext, v truncated by 1 / to empty / extended by 1 and 32 bytes / one byte changed, each other scheme label; 8 independent wrong keys. A flip whose encoding no longer decodes is counted as rejected-at-decode (trivial); one that decodes to the SAME value (non-canonical scheme byte) is not an alteration; every other one is non-trivial and must give is_valid()==0 and decrypt()==None on all three decrypt paths. Wrong keys must never return the original message. History clusters (1 quick / 6 thorough per group): the ciphertext of every scheme and seven altered copies (three labels, u+G, w+G, a payload bit, payload truncated) through is_valid / decrypt / decryption key / decrypt under a wrong key are asked in ordered pairs (a,b) as a,b,b,a; every answer must equal the answer the question has on its own. Distinct by (suite,scheme,variant,ciphertext bytes).";
+pub const RULE: &str = "message lengths {0..=40, 100..=140, 16383, 16384, 16385, 65535, 65536} (quick: every 3rd of the short ranges + all boundary lengths) x 3 schemes x 2 groups x fresh keys x contents (random everywhere; all-zero, all-0xff and counter at lengths 1,31,32,33,127,128,129,16384 in the quick tier and at every length in the thorough tier). Honest: is_valid()==1, decrypt(sk)==msg, SignCryptDecryptionKey(u*sk).decrypt==msg, sk.sign_decryption_key path, decode(encode(ct)) decrypts, and the REFERENCE opens the library's ciphertext to msg. Tamper: EXHAUSTIVE single-bit flips of the whole byte encoding (u, length prefix, v, w, scheme byte) for one ciphertext of a message <= 8 bytes per (scheme,group) cell, 64 sampled flips for every other ciphertext; component-level changes: u+G, 2u, u of another ciphertext, w+G, -w, w of another ciphertext, v truncated by 1 / to empty / extended by 1 and 32 bytes / one byte changed, each other scheme label; 8 independent wrong keys. A flip whose encoding no longer decodes is counted as rejected-at-decode (trivial); one that decodes to the SAME value (non-canonical scheme byte) is not an alteration; every other one is non-trivial and must give is_valid()==0 and decrypt()==None on all three decrypt paths. Wrong keys must never return the original message. History clusters (1 quick / 6 thorough per group): the ciphertext of every scheme and seven altered copies (three labels, u+G, w+G, a payload bit, payload truncated) through is_valid / decrypt / decryption key / decrypt under a wrong key are asked in ordered pairs (a,b) as a,b,b,a; every answer must equal the answer the question has on its own. Distinct by (suite,scheme,variant,ciphertext bytes).";
 
 pub fn run(ctx: &mut Ctx) {
     for_both!(run_suite, ctx);
@@ -38,7 +38,10 @@ fn run_suite<C: Suite>(ctx: &mut Ctx) {
     let base: u64 = if C::NAME == "G1Impl" { 0 } else { 1 << 32 };
     let n = C::NAME;
     let mut g = base;
-    let contents: &[Content] = ctx.tier.pick(&[Content::Random][..], &[Content::Random, Content::Zero, Content::Ones][..]);
+    // quick: random content everywhere, all-zero / all-0xff / counter content at the lengths where
+    // the framing changes shape (leading / trailing 0x00 and 0xff next to prefix and padding)
+    let contents: &[Content] = &[Content::Random, Content::Zero, Content::Ones, Content::Counter];
+    let quick_structured = [1usize, 31, 32, 33, 127, 128, 129, 16384];
     let _ = CONTENTS;
     for scheme in SCHEMES {
         let sn = scheme.name();
@@ -47,6 +50,9 @@ fn run_suite<C: Suite>(ctx: &mut Ctx) {
         }
         for len in lengths(ctx.tier) {
             for &content in contents {
+                if !matches!(content, Content::Random) && (len == 0 || (ctx.tier == Tier::Quick && !quick_structured.contains(&len))) {
+                    continue;
+                }
                 g += 1;
                 if !ctx.mine(g) {
                     continue;
